@@ -533,7 +533,14 @@ func zvC30DecodePart(r *vh.Run, item *int) bool {
 			continue
 		}
 		fixed := s.Wire[:s.TLVOff]
-		for _, t := range zvC30GridTypes {
+		gridTypes := zvC30GridTypes
+		if thorough {
+			gridTypes = gridTypes[:0:0]
+			for t := 0; t < 256; t++ {
+				gridTypes = append(gridTypes, t)
+			}
+		}
+		for _, t := range gridTypes {
 			mine, stop := unit()
 			if stop {
 				return true
@@ -937,7 +944,7 @@ func TestVerifC30(t *testing.T) {
 	defer r.Finish()
 	r.Rule("decode: seeds (P2P hello without/with neighbour, the LSP the server generates, an LSP per TLV type [15], CSNP, PSNP, LAN hello body) x {every offset x every byte value; every truncation; " +
 		"every TLV/inner length byte x every value with the packet cut or zero-extended to the declared end; pairs of TLV length bytes x boundary values (thorough: all 256x256); " +
-		"TLV type x declared length x available bytes grid behind each PDU's fixed part}. " +
+		"TLV type (17 types; thorough: all 256) x declared length 0..255 x available bytes {0,1,len-1,len,len+1,len+2} x fill {00,01,ff} grid behind each PDU's fixed part}. " +
 		"round trip: P2P hellos {circuit type 1-3} x {no neighbour, initializing, up} x 0-3 addresses x 0-3 areas of lengths {1,3,13} x holding timer {0,27,65535}; " +
 		"LSPs as generateLocalLSP builds them: 0-3 areas x 0-3 addresses x hostname {none,0,1,255 bytes} x 0-3 IP reachabilities x 0-3 neighbours, and every combination of " +
 		"0-3 IP reachabilities with prefix lengths {0,8,9,24,32} (thorough: 0..32 for up to 2) x 0-3 neighbours with 0-2 interface- and 0-2 neighbour-address sub-TLVs x hostname {none,255}; " +
